@@ -150,6 +150,10 @@ def deep(tbl):
             out.append(f"*=0x008000\n.table '{tbl}'\n" + opens + ".text 'ABC'\n" + closes)
             out.append("*=0x008000\nouter := 5\n.macro m(v) {\n.db v\n}\n" + opens + ".db outer\nm(outer)\n.if outer {\nnop\n}\n" + closes)
             out.append("*=0x008000\n" + opens + ".text 'ABC'\n.db missing_name\n" + closes)
+    # texts with a `[` that opens neither an escape nor a table entry and is never closed; struct bodies that are never closed
+    for t in ("AB[", "[end", "A[0x4", "[[[", "A[0x41]B[", "[]", "["):
+        out.append(f"*=0x008000\n.table '{tbl}'\n.text '{t}'\nrts\n")
+    out += [".struct s {", ".struct s { ; doc", ".struct point {\nbyte x\n", ".struct s {\n", ".struct", ".struct s"]
     return out
 
 
